@@ -6,5 +6,6 @@ props=${@:-$(python3 -c "import json;print(' '.join(c['property_id'] for c in js
 for p in $props; do
   out=$(./check $p $tier 2>/tmp/runall-$p.err); rc=$?
   echo "$p rc=$rc $(echo "$out" | grep -E '^(SUMMARY|VIOLATION|KNOWN|NONDET)' | cut -c1-260 | tr '\n' ' ')"
-  [ $rc -ne 0 ] && tail -n 5 /tmp/runall-$p.err | cut -c1-300
+  if [ $rc -ne 0 ]; then tail -n 5 /tmp/runall-$p.err | cut -c1-300; bad=1; fi
 done
+exit ${bad:-0}
